@@ -38,6 +38,12 @@ Theorem C44_capacity_preserved_instances :
 Proof. vm_compute. repeat split. Qed.
 Print Assumptions C44_capacity_preserved_instances.
 
+(* every frame counts as traffic, server-pushed EVENT frames (stream -1) included: the next round skips the connection *)
+Theorem C44_pushed_event_is_traffic : forall s, msg_received (step s RecvPush) = true /\ in_flight (step s RecvPush) = in_flight s
+  /\ free (step s RecvPush) = free s /\ reqs (step s RecvPush) = reqs s.
+Proof. intros s. unfold step. proj. repeat split; reflexivity. Qed.
+Print Assumptions C44_pushed_event_is_traffic.
+
 (* a failed or unanswered heartbeat: run() calls connection.defunct(exc) -- on a live connection the flag is set and every later
    send is refused -- and then owner.return_connection(connection): the owner is notified *)
 Theorem C44_failed_defunct : forall s, defunct s = false -> closed s = false ->
